@@ -4,6 +4,7 @@ mod gen;
 mod gen2;
 mod hist;
 mod metric;
+mod nodeids;
 mod search;
 
 use std::collections::BTreeSet;
@@ -104,6 +105,82 @@ fn main() {
                 }
             }
             run_many(&hs, threads, &exec::RunCfg::default(), &out, first_no);
+        }
+        "nodeids" => {
+            // --mode exhaustive|sample  --out prefix  [--seed S] [--budget N]
+            let out = arg(&args, "--out").expect("--out prefix");
+            let seed: u64 = arg(&args, "--seed").map(|s| s.parse().unwrap()).unwrap_or(1);
+            let budget: usize = arg(&args, "--budget").map(|s| s.parse().unwrap()).unwrap_or(20000);
+            let thorough = args.iter().any(|a| a == "--thorough");
+            let mut lines = Vec::new();
+            let mut summary = Vec::new();
+            // sets of used ids: empty, dense, gaps (1, 2, 3 recyclable ids), "runs out mid-way"
+            let useds: Vec<Vec<u32>> = vec![vec![], vec![0, 1], vec![1], vec![2], vec![0, 3], vec![3], vec![1, 4], vec![5]];
+            let small: Vec<Vec<usize>> = vec![vec![1, 1], vec![2, 1], vec![2, 2], vec![1, 1, 1]];
+            let big: Vec<Vec<usize>> = vec![vec![3, 2], vec![3, 3], vec![2, 1, 1], vec![2, 2, 1], vec![2, 2, 2], vec![3, 3, 3]];
+            let mut exhaustive_cfgs = 0;
+            for used in &useds {
+                for reqs in &small {
+                    if !thorough && reqs.len() == 3 && used.len() > 1 {
+                        continue;
+                    }
+                    let (n, complete) = nodeids::explore_all(used, reqs, budget, &mut lines, 0);
+                    if complete {
+                        exhaustive_cfgs += 1;
+                    }
+                    summary.push(json!({"used": used, "reqs": reqs, "schedules": n, "complete": complete}));
+                }
+            }
+            let mut k = 0u64;
+            for used in &useds {
+                for reqs in &big {
+                    k += 1;
+                    let n = nodeids::explore_random(used, reqs, if thorough { 600 } else { 60 }, seed.wrapping_mul(977).wrapping_add(k), &mut lines, 0);
+                    summary.push(json!({"used": used, "reqs": reqs, "schedules": n, "complete": false}));
+                }
+            }
+            for (i, l) in lines.iter_mut().enumerate() {
+                l["n"] = json!(i as i64);
+            }
+            write_trace(&format!("{out}.ndjson"), &lines);
+            let stats = json!({"schedules": lines.len(), "configs": summary.len(), "exhaustive_configs": exhaustive_cfgs, "summary": summary});
+            std::fs::write(format!("{out}.stats.json"), stats.to_string()).unwrap();
+            println!("{}", json!({"schedules": lines.len(), "configs": summary.len(), "exhaustive_configs": exhaustive_cfgs}));
+        }
+        "nodeids-replay" => {
+            // re-executes one recorded schedule (the thread order of its steps) on the real code
+            let file = arg(&args, "--file").expect("--file");
+            let out = arg(&args, "--out").expect("--out prefix");
+            let v: Value = serde_json::from_str(&std::fs::read_to_string(&file).unwrap()).unwrap();
+            let line = if v.get("line").is_some() { v["line"].clone() } else { v };
+            let used: Vec<u32> = line["used"].as_array().unwrap().iter().map(|x| x.as_u64().unwrap() as u32).collect();
+            let reqs: Vec<usize> = line["reqs"].as_array().unwrap().iter().map(|x| x.as_u64().unwrap() as usize).collect();
+            let order: Vec<usize> = line["steps"].as_array().unwrap().iter().map(|s| s[0].as_u64().unwrap() as usize - 1).collect();
+            // translate "thread t" into "index among the enabled threads" on the fly
+            let pcs = std::cell::RefCell::new(Vec::<usize>::new());
+            let _ = &pcs;
+            let mut remaining: Vec<usize> = (0..reqs.len()).collect();
+            let mut choose = |step: usize, n: usize| {
+                let _ = n;
+                let want = order.get(step).copied().unwrap_or(remaining[0]);
+                remaining.iter().position(|t| *t == want).unwrap_or(0)
+            };
+            // the enabled set shrinks as threads finish; rebuild it from the recorded order: a thread is
+            // enabled at step k iff it still has a later (or current) step
+            let r = {
+                let mut k = 0usize;
+                let order2 = order.clone();
+                let mut ch = |step: usize, _n: usize| {
+                    k = step;
+                    let en: Vec<usize> = (0..reqs.len()).filter(|t| order2[step.min(order2.len().saturating_sub(1))..].contains(t)).collect();
+                    let want = order2.get(step).copied().unwrap_or(en[0]);
+                    en.iter().position(|t| *t == want).unwrap_or(0)
+                };
+                let _ = &mut choose;
+                nodeids::run_schedule(&used, &reqs, &mut ch, 0)
+            };
+            write_trace(&format!("{out}.ndjson"), &[r.line]);
+            println!("{}", json!({"schedules": 1}));
         }
         "replay" => {
             let file = arg(&args, "--hist").expect("--hist file");
